@@ -271,7 +271,9 @@ def BVV(value, size=None, **kwargs) -> BV:
             pass
 
     result = BV("BVV", (value, size), length=size, **kwargs)
-    _bvv_cache[(value, size)] = result
+    if not kwargs:
+        # the cache is only consulted for plain BVVs, so it must only hold plain BVVs
+        _bvv_cache[(value, size)] = result
     return result
 
 
